@@ -1,6 +1,7 @@
 (* C13  Idle callbacks run exactly once, after the events, in order, unless cancelled. *)
 From CV Require Import Base Consts Token PostAction Env Loop.
-From CVP Require Import Loop_frames Seq_lemmas C13_proofs.
+From CVP Require Import Loop_frames Seq_lemmas C13_proofs C13_queue.
+Import ListNotations.
 Open Scope N_scope.
 
 (* insert_idle appends at the end of the queue; no other operation touches the queue *)
@@ -19,7 +20,37 @@ Theorem C13_runs_head_first : forall scr s i l, halted s = false -> idle_cancell
   exists s2, run_idles scr s (i :: l) = (if halted s2 then s2 else run_idles scr (set_ridle s2 None) l) /\
              s2 = exec_actions (set_ridle (emit s (L T_IDLE [zN i])) (Some i)) (sc_acts (nth 0 (scr (IDLE_BASE + i)) default_script)).
 Proof. intros scr s i l Hh Hc. eexists. split; [rewrite run_idles_step, Hh, Hc; reflexivity|reflexivity]. Qed.
-(* a failed dispatch (Err) leaves the queue alone: idles are only taken after all events were processed *)
+(* THE QUEUE OVER WHOLE DISPATCHES. Below `dispatch` every function - any batch of events with any callbacks - only appends to the
+   idle queue (`iapp`). A dispatch that does not reach its idle phase (a before_sleep hook or an event failed, the run stopped)
+   therefore leaves everything queued, in order, plus what was inserted: those idles run in the first dispatch that does return Ok.
+   A dispatch that reaches it runs the phase over everything queued until then - what was queued before the dispatch followed by what
+   its source callbacks inserted - and leaves in the queue exactly what the idle callbacks themselves inserted: an idle inserted by an
+   idle callback runs in the following dispatch, never in the same one. *)
+Theorem C13_events_only_append : forall scr evs s, iapp s (fst (process_events scr s evs)).
+Proof. intros. apply iapp_process_events. Qed.
+Theorem C13_dispatch_queue : forall scr bscr s t order,
+  let s' := dispatch scr bscr s t order in
+  iapp s s' \/
+  exists s5, iapp s s5 /\ iapp (set_idles s5 []) (run_idles scr (set_idles s5 []) (idles s5)) /\
+             idles s' = idles (run_idles scr (set_idles s5 []) (idles s5)).
+Proof. exact dispatch_idle_queue. Qed.
+(* the IDLE lines a phase adds to the log are those of a subsequence of its snapshot, in snapshot order: every queued idle runs at
+   most once per phase and never before an idle queued ahead of it; nothing but the phase itself writes IDLE lines (idl_exec_actions) *)
+Theorem C13_phase_runs_a_subsequence_in_order : forall scr l s, exists ran,
+  idl (run_idles scr s l) = map (fun i => L T_IDLE [zN i]) (rev ran) ++ idl s /\ subseq ran l.
+Proof. exact run_idles_lines. Qed.
+(* met by a real history: idles 1, 2, 3 are queued, 2 is cancelled, idle 1's callback inserts idle 4. A first dispatch fails in an event
+   callback (Err): no idle runs and the queue is kept. The second dispatch runs 1 and 3 in order; 4 is left queued and runs in the third *)
+Example C13_queue_nonvacuous :
+  let scr : scripts := fun h => if N.eqb h (IDLE_BASE + 1) then [mkScript [AIdle 4] 0 0%Z] else if N.eqb h 9 then [mkScript [] 4 0%Z] else [] in
+  let pre := [CAct (AInsert 9 (SComp false None [mkGen 10 (mkInt true false) Level None false] None)); CAct (AFdWrite 10 1);
+              CAct (AIdle 1); CAct (AIdle 2); CAct (AIdle 3); CAct (ACancelIdle 2)] in
+  let idle_ids s := map (fun l => match l with L _ a => a end) (filter is_idle_line (trace_of s)) in
+  let a := run scr (fun _ => []) (pre ++ [CDispatch 0%Z [1]]) in
+  let b := run scr (fun _ => []) (pre ++ [CDispatch 0%Z [1]; CDispatch 0%Z [1]]) in
+  let c := run scr (fun _ => []) (pre ++ [CDispatch 0%Z [1]; CDispatch 0%Z [1]; CDispatch 0%Z [1]]) in
+  (idle_ids a = [] /\ idles a = [1; 2; 3]) /\ (idle_ids b = [[1%Z]; [3%Z]] /\ idles b = [4]) /\ (idle_ids c = [[1%Z]; [3%Z]; [4%Z]] /\ idles c = []).
+Proof. vm_compute. repeat split. Qed.
 
 Example C13_nonvacuous :
   let s := run (fun _ => []) (fun _ => []) [CAct (AIdle 1); CAct (AIdle 2); CAct (ACancelIdle 1); CDispatch 0%Z []] in
